@@ -80,6 +80,20 @@ def run(ck):
                         ok = True
             ck.verdict(ok, "2", "T4-guarded-by", b, "busy=>Ok(false)", "a busy dispatcher answers Ok(false) exactly on the failed try-borrow edge", "the busy answer Ok(false) is not tied to the failed try-borrow", site=b.where(t.bb))
 
+    # a self-directed disable()/update() is parked and applied when the source's processing finishes, to
+    # that source only (shared with C09.1/C09.4); a disable() aimed at another source from a callback
+    # silences events already collected for it (shared with C01.5)
+    from props import C09, C01, common
+    from props.common import DispatchLoop
+
+    try:
+        dl = DispatchLoop(ck, "2")
+        C09.take_and_reset(ck, "2", dl)
+        C09.who_may_defer(ck, "2", dl.body)
+    except AnchorMissing:
+        pass
+    common.import_results(ck, C01, "5", None, "2")
+
     # ---- clause 3: nobody returns holding a guard; no nested incompatible borrow -----------------------
     nret = 0
     for b in f.bodies.values():
